@@ -512,7 +512,8 @@ JudgeEvo(tr, T, ev) ==
       tipsok == \A i \in 1..Len(a.tips) : SymValid(a.tips[i])
       tn == TipNumbers(a.tips)
       wellsok == WellsValid(g, ws)
-      shaped == /\ n >= 1 /\ Len(a.tips) = n /\ (Len(v0) = 1 \/ Len(v0) = n)
+      \* one scalar volume for all tips, or a list with one volume per tip (a one-element list for several tips is refused)
+      shaped == /\ n >= 1 /\ Len(a.tips) = n /\ (a.vols.k = "s" \/ Len(v0) = n)
       onecol == \A i \in 1..n : ws[i][2] = ws[1][2]
       distinct == Cardinality(Range(ws)) = n /\ Cardinality(Range(tn)) = n
       \* ascending tips serve ascending wells: the given assignment must be order preserving
